@@ -927,3 +927,8 @@ package genql
 //@ func ExecGroupBy
 //@   loop 0 exhaustive every-row-is-grouped[C03]: current
 //@   loop 0 ascending-range rows-are-grouped-in-source-order[C03]: current
+
+// C04: the hash path stands in for `=`: a key is printed the way compare.Compare prints values it compares as text (%v),
+// so that values that compare equal (7 and uint32(7), 9 and "9") fall into one bucket
+//@ func ToCatalog
+//@   at-call Sprintf:reader assert the-key-is-printed-the-way-compare-prints-values[C04]: arg0 == "%v"
